@@ -34,6 +34,8 @@ def gen_history(rng, bbr=False):
     now = 0
     pk = []                       # outstanding packets (size, sent time)
     rec = None                    # time of the last congestion event (approximate recovery start)
+    hs_mode = rng.choice([0, 1, 1])  # 1: RTT samples follow a slowly rising baseline (delay increase detection)
+    hs_base = rng.choice([1000, 20000, 32000, 100000])
     for _ in range(n):
         r = rng.random()
         dt = _dt(rng)
@@ -77,7 +79,15 @@ def gen_history(rng, bbr=False):
             sent = max(s for _, s in sel)
             if rec is not None and rng.random() < 0.4:
                 sent = max(0, min(t, rec + rng.choice([-1, 0, 0, 1, 1, 2])))
-            case += [2, b, t - sent, _rtt(rng), dt]
+            sample = _rtt(rng)
+            if not bbr and rng.random() < 0.7:
+                # the recovery manager updates the RTT (hybrid slow start) before on_ack
+                if hs_mode == 1:
+                    hs_base = hs_base if rng.random() < 0.8 else hs_base + rng.choice([0, 3999, 4000, 4001, 16000, 100000])
+                    sample = max(1, hs_base + rng.choice([0, 0, 1, 50]))
+                case += [7, 0, t - sent, sample, dt]
+                dt = 0
+            case += [2, b, t - sent, sample, dt]
             now = t
             bif -= b
         elif r < 0.89:
@@ -194,6 +204,7 @@ def valid_history(c):
     if not (1200 <= c[0] <= 9000):
         return False
     bif = 0
+    sent_any = False
     for i in range(1, len(c), 5):
         code, a, b, cc, dt = c[i:i + 5]
         if dt > 10_000_000:
@@ -202,6 +213,7 @@ def valid_history(c):
             if a > 65535 or b > 2:
                 return False
             bif += a
+            sent_any = sent_any or a > 0
         elif code == 2:
             if a > bif or not (1 <= cc <= 10_000_000) or a == 0:
                 return False
@@ -220,11 +232,49 @@ def valid_history(c):
             if a > bif:
                 return False
             bif -= a
+        elif code == 7:
+            # on_rtt_update `expect`s that a packet has been sent
+            if not sent_any or not (1 <= cc <= 10_000_000):
+                return False
         else:
             return False
         if bif > U32:
             return False
     return True
+
+
+def hystart_case(m, base, inc):
+    c = [m]
+    now = [0]
+    pend = [0]
+
+    def op(code, a=0, b=0, cc=0):
+        c.extend([code, a, b, cc, pend[0]])
+        now[0] += pend[0]
+        pend[0] = 0
+
+    def batch(n):
+        times = []
+        for _ in range(n):
+            pend[0] += 1
+            op(1, m, 1)
+            times.append(now[0])
+        return times
+
+    first = batch(16)
+    pend[0] += 1000
+    for rnd, sample in ((0, base), (1, base + inc)):
+        nxt = batch(16)                       # sent before the round's first sample: they end the round
+        pend[0] += 1000
+        # the first sample is for the newest packet of the previous batch: its send time is the
+        # end of the previous round, so it opens a new round; 8 more samples stay inside it
+        for t in [first[-1]] + first[:8]:
+            op(7, 0, now[0] + pend[0] - t, sample)
+            op(2, m, now[0] - t, sample)
+        for t in first[8:-1]:
+            op(2, m, now[0] - t, sample)
+        first = nxt
+    return c
 
 
 def fixed_cubic(tier):
@@ -237,6 +287,12 @@ def fixed_cubic(tier):
         out.append([m] + [1, m, 2, 0, 0] * 3 + [2, m, 0, 25000, 25000, 3, m, 1, 1, 0, 4, 1, 0, 0, 1, 2, m, 0, 25000, 1])
         # repeated losses at the minimum window
         out.append([m] + [1, m, 1, 0, 0] * 12 + [3, m, 0, 1, 1, 1, m, 1, 0, 1, 2, m, 0, 1, 1] * 5 + [5, 1200, 0, 0, 0, 5, 9000, 0, 0, 0, 5, m, 0, 0, 0])
+    # hybrid slow start: two RTT rounds of 8 samples each (a round ends when a packet sent after
+    # the round's first sample is acknowledged), the second round slower by inc; the threshold is
+    # set when inc >= max(4 ms, min(16 ms, rtt/8)) and the window is above 16 datagrams
+    for m in (1200, 1500):
+        for base, inc in ((20000, 3999), (20000, 4000), (20000, 4001), (200000, 15999), (200000, 16000), (32000, 4000)):
+            out.append(hystart_case(m, base, inc))
     return out
 
 
@@ -263,7 +319,7 @@ def fixed_bbr(tier):
 
 def _kinds(cases):
     h = {}
-    names = {1: "sent", 2: "ack", 3: "lost", 4: "ecn", 5: "mtu", 6: "discard"}
+    names = {1: "sent", 2: "ack", 3: "lost", 4: "ecn", 5: "mtu", 6: "discard", 7: "rtt_update"}
     for c in cases:
         for i in range(1, len(c), 5):
             k = names.get(c[i], "other")
@@ -338,22 +394,23 @@ registry.register("C10", {
         {"name": "cubic", "gen": lambda rng: gen_history(rng), "fixed": fixed_cubic, "quick": 20000, "thorough": 400000,
          "model": False, "valid": valid_history,
          "nontrivial": lambda case, out: any(case[i] in (3, 4) for i in range(1, len(case), 5)) and any(case[i] == 2 for i in range(1, len(case), 5)),
-         "histogram": lambda cases, outs: {"ops": _kinds(cases), "state_kinds": _states(outs, 7, 3)}},
+         "histogram": lambda cases, outs: {"ops": _kinds(cases), "state_kinds": _states(outs, 9, 3)}},
         {"name": "bbr", "gen": gen_bbr, "fixed": fixed_bbr, "quick": 6000, "thorough": 120000,
          "model": False, "valid": valid_history,
          "nontrivial": lambda case, out: any(case[i] in (3, 4) for i in range(1, len(case), 5)) and any(case[i] == 2 for i in range(1, len(case), 5)),
          "histogram": lambda cases, outs: {"ops": _kinds(cases)}},
     ],
-    "extra_checks": [corr_with_oracle("cubic", lambda rng: gen_history(rng), fixed_cubic, 20000, 400000, 7),
+    "extra_checks": [corr_with_oracle("cubic", lambda rng: gen_history(rng), fixed_cubic, 20000, 400000, 9),
                      corr_with_oracle("bbr", gen_bbr, fixed_bbr, 6000, 120000, 13)],
-    "rule": "cases: boundary families (window floor, recovery-period edges, persistent congestion, MTU changes at 1200/7360/9000) + seeded random valid event histories (2..80 events; sizes 0..65535; datagram sizes 1200..9000; RTT 1us..10s; time steps 0..10s; acks aimed at the recovery start +-1us); a case is non-trivial when it contains a congestion signal and an acknowledgement",
+    "rule": "cases: boundary families (window floor, recovery-period edges, persistent congestion, MTU changes at 1200/7360/9000, hybrid slow start delay thresholds 4 ms / 16 ms / rtt/8 at +-1 us, BBR ProbeRTT with a tiny BDP around the 5 s interval) + seeded random valid event histories (2..80 events; sizes 0..65535; datagram sizes 1200..9000; RTT 1us..10s; time steps 0..10s; acks aimed at the recovery start +-1us); BBR additionally round-by-round histories through Startup / Drain / ProbeBW / ProbeRTT with loss bursts, ECN, idle and application-limited phases; a case is non-trivial when it contains a congestion signal and an acknowledgement",
     "assumptions": [
         "oracle_ok (CUBIC, monitored): where on_ack reaches congestion_avoidance() the window it produces is at least 2*max_datagram_size; the code only debug_asserts this; the harness runs with debug assertions on (a failure is a panic = violation) and the judge checks the floor on every row",
-        "the cubic / Reno-friendly curve (w_cubic, w_est, powi, cbrt, mul_add, Duration<->f32) and the f32 rescale in on_mtu_update are oracles: the model takes the implementation's own window after such a step as the answer and applies only the clamps the code applies (min with cwnd + acked/2 and with max(1.5*bytes_in_flight_hi, 2*mds); max with the initial window)",
-        "BBR: every quantity of the bandwidth/inflight model (max_inflight, filled_pipe, delivered bytes, ProbeRTT state, probe_rtt_cwnd, inflight_hi/lo, headroom) is an arbitrary oracle input of set_cwnd/bound_cwnd_for_model/restore_cwnd; the executable history model confines the implementation's window to [4*mds, largest window so far + newly acked bytes]",
-        "f32 arithmetic at the exactly modelled sites (u32->f32, +, * by 0.7 / 1.5 / 2.0, min/max, comparison, `as u32`) is IEEE-754 round-to-nearest-even at 24 significant bits (round24 in model/Cubic.v); no subnormals or overflow occur for windows >= 2048 and < 2^32",
-        "histories are valid: never more bytes acknowledged/lost/discarded than in flight, counter within u32 (the code `expect`s this of its caller; theorem C10_cubic_no_panic_iff_valid shows this is the only way the model panics); max_datagram_size is a u16; time is monotone",
-        "private state of CubicCongestionController (f32 window, state kind, under_utilized) is read from its public Debug rendering by the harness; the property judgement uses only congestion_window() and bytes_in_flight()",
+        "the cubic / Reno-friendly curve (w_cubic, w_est, powi, cbrt, mul_add, Duration<->f32) is the only CUBIC oracle: the model takes the implementation's own window after such a step as the answer and applies the clamps the code applies (min with cwnd + acked/2 and with max(1.5*bytes_in_flight_hi, 2*mds)); everything else, including multiplicative decrease, the f32 rescale of on_mtu_update and hybrid slow start (on_rtt_update), is computed",
+        "BBR: bandwidth / min-rtt filters are oracles. After each step the implementation's state kind, filled_pipe, inflight_hi, inflight_lo and window are the oracle's answers; the model accepts them only along transitions the code allows (legal_ack / Up->Down on loss, filled_pipe monotone) and confines the window to what set_cwnd can produce: unchanged (after restore_cwnd) or within [4*mds, min(window + newly acked, bound_cwnd_for_model)]; bytes in flight, recovery state, delivered / lost bytes, the application-limited marker, prior_cwnd and the MTU rescale are computed exactly",
+        "saturation (visible hypotheses of the judge_model theorems, generator-side constant): at most 2^30 bytes are sent in a history (the generators emit at most 320 operations of at most 65535 bytes) and the window the model computes for an on_mtu_update is at most 2^31 bytes (CUBIC) / 2^30 bytes (BBR)",
+        "f32 arithmetic at the exactly modelled sites (u32->f32, +, /, * by constants and by the datagram size, min/max, comparison, `as u32`) is IEEE-754 round-to-nearest-even at 24 significant bits (round24 / fdivmul in model/Cubic.v); no subnormals or overflow occur for windows >= 2048 and < 2^32",
+        "histories are valid: never more bytes acknowledged/lost/discarded than in flight, counter within u32, on_rtt_update only after a packet was sent (the code `expect`s this of its caller; C10_cubic_no_panic_iff_valid shows these are the only ways the model panics); max_datagram_size is a u16; time is monotone; S2N_UNSTABLE_USE_HYSTART_PP is unset",
+        "private state of both controllers is read from their public Debug rendering by the harness; the property judgement uses only congestion_window() and bytes_in_flight()",
     ],
     "trusted_base": ["no axioms: Print Assumptions reports 'Closed under the global context' for every C10 theorem (f32 is modelled in exact integer arithmetic, Flocq is not used)",
                      "tools/genfam_C10.py: decomposition of f32 literals into mantissa / exponent (struct.pack)"],
